@@ -97,6 +97,9 @@ func stackVariants(full bool) []struct {
 	inacc := Sc(1)
 	inacc.IsInaccurate = true
 	out = append(out, sv{"f(1?,p1)", one(F, FILE, 10, inacc, Sc(p1))})
+	inacc2 := Sc(2)
+	inacc2.IsInaccurate = true
+	out = append(out, sv{"f(2?,p1)", one(F, FILE, 10, inacc2, Sc(p1))})
 	el := one(F, FILE, 10, Sc(1), Sc(p1))
 	el.Elided = true
 	out = append(out, sv{"f(1,p1) elided-frames", el})
